@@ -85,6 +85,11 @@ def run(rep, tier, seed):
             trees.append([rng.choice([1, 2]), [[0, a] for a in ops]])
         elif i % 8 == 6:
             trees.append(gen.gen_tree(rng, depth=2, maxar=3, atoms=gen.with_part_atoms()))
+        elif i % 8 == 7:
+            # keys that differ only in letter case are different licenses
+            from core import enc_str
+            cs = [[0, [enc_str(k), 0]] for k in ('mit', 'MIT', 'Mit', 'x')] + [[1, [enc_str('gpl'), 0], [enc_str(k), 0]] for k in ('foo', 'Foo')]
+            trees.append(gen.gen_tree(rng, depth=rng.randint(1, 2), maxar=3, atoms=cs))
         elif i % 4 == 1:
             trees.append(gen.gen_tree(rng, depth=rng.randint(1, 2), maxar=5, keys=gen.ORDER_KEYS))
         else:
